@@ -70,6 +70,7 @@ def main():
             env = dict(os.environ)
             env["VERIF_OVERLAY_EXTRA"] = ex
             env["VERIF_REPLAY_DIR"] = os.path.join(wd, "replays")
+            env["VERIF_WORK"] = wd
             p = subprocess.run([os.path.join(VERIF, "bin", "vcheck"), a.prop, "--tier", "quick", "--no-evidence"],
                                env=env, capture_output=True, text=True)
             caught = p.returncode == 1 and "VIOLATION property=" + a.prop in p.stdout
